@@ -111,7 +111,10 @@ class MotionCommander:
         :return:
         """
         if self._is_flying:
-            self.down(self._thread.get_height(), velocity)
+            height = self._thread.get_height()
+            if height != 0.0:
+                # Already at ground level otherwise, a zero distance move can not be executed
+                self.down(height, velocity)
 
             self._thread.stop()
             self._thread = None
